@@ -267,6 +267,17 @@ class SigWorld(HistoryWorld):
             return call(check_block_signatures, nodes=list(st.nodes), signatures=clean, blk=st.blk)     # keyword spelling
         return call(check_block_signatures, list(st.nodes), clean, st.blk)
 
+    def _lazy_sigs(self, st, clean):
+        """The signatures arrive through a lazy stream, and while the stream is being drained ANOTHER check runs over the same
+        ValidatorDescr objects (a second block being verified by the same client: two callers interleaved at the only yield points a
+        synchronous library has).  The other check is complete and correct; it must not change what this one concludes."""
+        full = [self._sig(st, {'v': i, 'kind': 'valid', 'bit': 0}) for i in range(len(st.keys))]
+        full = [{'node_id_short': x['node_id_short'], 'signature': x['signature']} for x in full]
+        for i, x in enumerate(clean):
+            if i >= 1:
+                call(check_block_signatures, list(st.nodes), list(full), st.blk)
+            yield x
+
     def op_check(self, st, op, ctx):
         sigs = st.arrived
         verdict, why = self._judge(st, sigs)
@@ -291,7 +302,8 @@ class SigWorld(HistoryWorld):
             for form, mk_nodes, mk_sigs in (('nodes-as-iterator', lambda: iter(list(st.nodes)), lambda: list(clean)),
                                             ('nodes-as-generator', lambda: (n for n in st.nodes), lambda: tuple(clean)),
                                             ('nodes-as-dict-values', lambda: dict(enumerate(st.nodes)).values(), lambda: iter(clean)),
-                                            ('nodes-as-tuple', lambda: tuple(st.nodes), lambda: list(clean))):
+                                            ('nodes-as-tuple', lambda: tuple(st.nodes), lambda: list(clean)),
+                                            ('interleaved-with-another-check-over-the-same-descriptors', lambda: list(st.nodes), lambda: self._lazy_sigs(st, clean))):
                 ok_f, _ = call(lambda: check_block_signatures(mk_nodes(), mk_sigs(), st.blk))
                 ctx.evaluated(1)
                 if ok_f:
